@@ -123,6 +123,13 @@ pub fn page(op: &'static str, page: u64) {
     }
 }
 
+/// Page ownership, with the source file of the pager call's caller as the structure tag.
+pub fn page_by(op: &'static str, page: u64, who: &'static str) {
+    if let Some(o) = current() {
+        o.page(op, page, who);
+    }
+}
+
 pub fn ext_id(counter: u64, computed: u64) -> u64 {
     match current() {
         Some(o) => o.ext_id(counter, computed),
